@@ -91,7 +91,7 @@ theorem self_gone_ends_watch {l : Lib} (h : Reachable l) (env : Env) (r : Raw) (
       all_goals
         obtain ⟨a, b⟩ := emit_tables ((l.afterDeleteSelf w r).remove env w.path).1 ((l.afterDeleteSelf w r).remove env w.path).2.1 _ _ w r
         rw [a, b]; exact key
-    · rw [if_neg hm]
+    · rw [if_neg hm, recurseAfter_norec _ _ _ _ hrec]
       have hds : test r.mask IN_DELETE_SELF = true := by
         unfold endsWatch at hend
         simp only [Bool.or_eq_true] at hend
@@ -133,6 +133,8 @@ theorem open_fd_unlink (l : Lib) (env : Env) (wd : Nat) (cookie : BitVec 32) (le
   have k6 : ¬ (Chmod == 0#32) = true := by decide
   unfold Lib.handle
   simp only [r, hw, k1, k2, Bool.false_eq_true, if_false]
+  have kd : test IN_ATTRIB IN_ISDIR = false := by decide
+  rw [recurseAfter_nodir _ _ _ _ kd]
   unfold Lib.afterDeleteSelf Lib.emit
   simp only [k3, k4, Bool.false_eq_true, if_false, Bool.false_and]
   have hop : (l.newEvent (nameOf w ⟨wd, IN_ATTRIB, cookie, len, nm⟩) IN_ATTRIB cookie).2.op = Chmod := by rw [newEvent_op, k5]
@@ -154,6 +156,8 @@ theorem delete_self_reports_iff (l : Lib) (env : Env) (wd : Nat) (cookie : BitVe
   have k6 : ¬ (Remove == 0#32) = true := by decide
   unfold Lib.handle
   simp only [r, hw, k1, k2, Bool.false_eq_true, if_false]
+  have kd : test IN_DELETE_SELF IN_ISDIR = false := by decide
+  rw [recurseAfter_nodir _ _ _ _ kd]
   unfold Lib.afterDeleteSelf Lib.emit
   simp only [k3, k4, if_true, Bool.true_and]
   by_cases hp : alHas (dir w.path) (l.dropWatch w).pathT = true
